@@ -21,8 +21,9 @@ pub struct SddMidWorld;
 
 use crate::worlds::sdd::{K_AND, K_AUDIT, K_COMPOSE, K_COND, K_CONST, K_EQ, K_EXISTS, K_IFF, K_ITE, K_NEG, K_OR, K_REISSUE, K_VAR, K_XOR};
 pub const K_IFFCHAIN: u8 = 14;
-const NKINDS: usize = 15;
-const KNAMES: [&str; NKINDS] = ["var", "const", "negate", "and", "or", "xor", "iff", "ite", "condition", "exists", "compose", "eq", "reissue", "audit", "iff-chain"];
+pub const K_MUX: u8 = 15;
+const NKINDS: usize = 16;
+const KNAMES: [&str; NKINDS] = ["var", "const", "negate", "and", "or", "xor", "iff", "ite", "condition", "exists", "compose", "eq", "reissue", "audit", "iff-chain", "mux"];
 const NB: usize = 4;
 type M = [TT; NB];
 
@@ -72,6 +73,19 @@ impl Cube {
             }
         }
         m
+    }
+}
+
+trait NodeIterLen {
+    fn node_iter_len(&self) -> usize;
+}
+impl NodeIterLen for Ptr {
+    fn node_iter_len(&self) -> usize {
+        match self {
+            SddPtr::Reg(o) | SddPtr::Compl(o) => o.iter().count(),
+            SddPtr::BDD(_) | SddPtr::ComplBDD(_) => 2,
+            _ => 0,
+        }
     }
 }
 
@@ -170,6 +184,83 @@ fn apply_chain(b: &'static CompressionSddBuilder<'static>, pairs: &[(usize, usiz
     acc
 }
 
+/// A multiplexer: selectors are `k` used variables of the first half (vtree leaf order), data inputs are functions
+/// over `ny` used variables of the second half drawn from a small pool of tables that contains complement pairs, so
+/// that on vtrees splitting near the middle the result (and every combination of two such results over disjoint
+/// selectors) is a wide raw element list whose subs coincide and complement each other heavily: compression at scale.
+const MUX_POOLS: [usize; 12] = [2, 3, 4, 6, 10, 16, 24, 40, 64, 100, 160, 256];
+struct Mux {
+    sel: Vec<usize>,
+    ys: Vec<usize>,
+    /// data table (over the ys) per selector minterm
+    data: Vec<u8>,
+}
+fn mux_of(used: &[usize], r: &Resolved) -> Mux {
+    let half = used.len() / 2;
+    let k = r.chain.0.clamp(1, half.min(6));
+    let ny = r.x[0].clamp(1, 3).min(used.len() - half);
+    let sel: Vec<usize> = (0..k).map(|t| used[(r.chain.1 + t) % half]).collect();
+    let ys: Vec<usize> = (0..ny).map(|t| used[half + (r.x[2] + t) % (used.len() - half)]).collect();
+    let mask: u64 = (1u64 << (1u32 << ny)) - 1;
+    let npool = r.x[1].clamp(2, 256);
+    let seed = r.label as u64;
+    let tables: Vec<u8> = (0..npool).map(|j| {
+        let t = (mix(seed, 1000 + (j as u64 & !1)) & mask) as u8;
+        if j & 1 == 1 { !t & mask as u8 } else { t }
+    }).collect();
+    let data: Vec<u8> = (0..(1usize << k)).map(|i| tables[(mix(seed, i as u64) % npool as u64) as usize]).collect();
+    Mux { sel, ys, data }
+}
+fn apply_mux(b: &'static CompressionSddBuilder<'static>, m: &Mux, back_to_front: bool) -> Ptr {
+    let lit = |v: usize, pol: bool| b.var(VarLabel::new(v as u64), pol);
+    let data_fn = |t: u8| -> Ptr {
+        let mut f = b.false_ptr();
+        for mt in 0..(1usize << m.ys.len()) {
+            if (t >> mt) & 1 == 1 {
+                let mut c = b.true_ptr();
+                for (j, y) in m.ys.iter().enumerate() {
+                    c = b.and(c, lit(*y, (mt >> j) & 1 == 1));
+                }
+                f = b.or(f, c);
+            }
+        }
+        f
+    };
+    let n = m.data.len();
+    let mut acc = b.false_ptr();
+    for step in 0..n {
+        let i = if back_to_front { n - 1 - step } else { step };
+        let mut c = b.true_ptr();
+        for t in 0..m.sel.len() {
+            let t = if back_to_front { m.sel.len() - 1 - t } else { t };
+            c = b.and(c, lit(m.sel[t], (i >> t) & 1 == 1));
+        }
+        acc = b.or(acc, b.and(c, data_fn(m.data[i])));
+    }
+    acc
+}
+fn model_mux(m: &Mux, cube: &Cube) -> M {
+    let mut acc = M_FALSE;
+    for (i, t) in m.data.iter().enumerate() {
+        let mut c = M_TRUE;
+        for (j, v) in m.sel.iter().enumerate() {
+            c = m_zip(c, cube.lit(*v, (i >> j) & 1 == 1), |a, b| a & b);
+        }
+        let mut f = M_FALSE;
+        for mt in 0..(1usize << m.ys.len()) {
+            if (t >> mt) & 1 == 1 {
+                let mut d = M_TRUE;
+                for (j, y) in m.ys.iter().enumerate() {
+                    d = m_zip(d, cube.lit(*y, (mt >> j) & 1 == 1), |a, b| a & b);
+                }
+                f = m_zip(f, d, |a, b| a | b);
+            }
+        }
+        acc = m_zip(acc, m_zip(c, f, |a, b| a & b), |a, b| a | b);
+    }
+    acc
+}
+
 fn apply(b: &'static CompressionSddBuilder<'static>, r: &Resolved, pool: &[Ptr]) -> Ptr {
     let g = |i: usize| pool[r.x[i]];
     let l = VarLabel::new(r.label as u64);
@@ -192,6 +283,14 @@ fn apply(b: &'static CompressionSddBuilder<'static>, r: &Resolved, pool: &[Ptr])
         K_EXISTS => b.exists(g(0), l),
         K_COMPOSE => b.compose(g(0), l, g(1)),
         _ => unreachable!(),
+    }
+}
+
+fn apply_any(b: &'static CompressionSddBuilder<'static>, r: &Resolved, pool: &[Ptr], used: &[usize]) -> Ptr {
+    match r.kind {
+        K_IFFCHAIN => apply_chain(b, &chain_route(used, r)),
+        K_MUX => apply_mux(b, &mux_of(used, r), r.flag),
+        _ => apply(b, r, pool),
     }
 }
 
@@ -351,6 +450,7 @@ fn run(plan: &Plan, ctx: &mut Ctx) -> R {
     // (the wide-node runs are made of a handful of deliberately large operations: no size caps there)
     let wide_chain = plan.get_or("wide_chain", 0) != 0;
     let mut chain_seen: BTreeMap<Vec<(usize, usize)>, Ptr> = BTreeMap::new();
+    let mut mux_seen: BTreeMap<((usize, usize), usize, [usize; 3]), Ptr> = BTreeMap::new();
     let size_cap = if wide_chain { u64::MAX / 4 } else { plan.get_or("size_cap", if compress { 4000 } else { 300 }) as u64 };
     let mut tsz: BTreeMap<usize, u64> = BTreeMap::new();
     let mut big: Vec<bool> = Vec::new();
@@ -374,11 +474,11 @@ fn run(plan: &Plan, ctx: &mut Ctx) -> R {
         let caller = (op.c & 3) as usize;
         let n = pool.len();
         let mut kind = op.k;
-        if n == 0 && !matches!(kind, K_VAR | K_CONST | K_IFFCHAIN) {
+        if n == 0 && !matches!(kind, K_VAR | K_CONST | K_IFFCHAIN | K_MUX) {
             kind = K_VAR;
         }
         let mut r = Resolved { kind, x: [0; 3], label: 0, flag: op.a[3] & 1 == 1, chain: (0, 0), result: None };
-        if !matches!(kind, K_VAR | K_CONST | K_REISSUE | K_AUDIT | K_IFFCHAIN) {
+        if !matches!(kind, K_VAR | K_CONST | K_REISSUE | K_AUDIT | K_IFFCHAIN | K_MUX) {
             let nops = match kind {
                 K_NEG | K_COND | K_EXISTS => 1,
                 K_ITE => 3,
@@ -418,6 +518,18 @@ fn run(plan: &Plan, ctx: &mut Ctx) -> R {
                     (1 + op.a[0].unsigned_abs() as usize % kmax + (kmax > 1) as usize, op.a[1].unsigned_abs() as usize)
                 }
             }
+            K_MUX => {
+                // number of selectors and offset | data seed | (data variables, pool of tables, offset) packed in a[2]
+                let wide = plan.get_or("wide_chain", 0) != 0;
+                // without compression the disjunction of 2^k terms is never merged: two selectors at most there; on
+                // vtrees that do not split near the middle selectors and data are interleaved: three at most
+                let kmax = if wide { 6 } else if !compress { 2 } else if matches!(plan.get("vt_shape"), 2 | 3) { 4 } else { 3 };
+                r.chain = ((op.a[0].unsigned_abs() as usize & 7).clamp(1, kmax), (op.a[0].unsigned_abs() as usize) >> 3);
+                r.label = (op.a[1].unsigned_abs() as usize) & 0xffff_ffff;
+                let w = op.a[2].unsigned_abs() as usize;
+                r.x = [1 + w % 3, MUX_POOLS[(w / 3) % MUX_POOLS.len()], w / 36];
+                r.flag = r.flag && compress;
+            }
             K_NEG => r.x[0] = resolve(op.a[0], caller, &own, n),
             K_AND | K_OR | K_XOR | K_IFF | K_EQ => {
                 r.x[0] = resolve(op.a[0], caller, &own, n);
@@ -446,7 +558,7 @@ fn run(plan: &Plan, ctx: &mut Ctx) -> R {
                 if h.result.is_none() || big[h.result.unwrap()] {
                     continue;
                 }
-                let p = if h.kind == K_IFFCHAIN { apply_chain(b, &chain_route(&cube.used, &h)) } else { apply(b, &h, &pool) };
+                let p = apply_any(b, &h, &pool, &cube.used);
                 let prev = pool[h.result.unwrap()];
                 ctx.ev(600 + K_REISSUE as u64, &[j as u64, pkey(p).0 as u64, pkey(p).1 as u64]);
                 let t = walk(p, &cube, &mut BTreeMap::new());
@@ -456,7 +568,7 @@ fn run(plan: &Plan, ctx: &mut Ctx) -> R {
                 }
                 if let Some(t) = twin {
                     let was = rsdd::verif::set_faults_enabled(false);
-                    let _ = if h.kind == K_IFFCHAIN { apply_chain(t, &chain_route(&cube.used, &h)) } else { apply(t, &h, &twin_pool) };
+                    let _ = apply_any(t, &h, &twin_pool, &cube.used);
                     rsdd::verif::set_faults_enabled(was);
                 }
                 continue;
@@ -480,8 +592,10 @@ fn run(plan: &Plan, ctx: &mut Ctx) -> R {
             history.push(r);
             continue;
         }
-        let p = if kind == K_IFFCHAIN { apply_chain(b, &chain_route(&cube.used, &r)) } else { apply(b, &r, &pool) };
-        let want = if kind == K_IFFCHAIN {
+        let p = apply_any(b, &r, &pool, &cube.used);
+        let want = if kind == K_MUX {
+            model_mux(&mux_of(&cube.used, &r), &cube)
+        } else if kind == K_IFFCHAIN {
             chain_route(&cube.used, &r).iter().fold(M_TRUE, |acc, (x, y)| m_zip(acc, m_zip(cube.lit(*x, true), cube.lit(*y, true), tt::iff), |a, c| a & c))
         } else {
             model_of(&r, &ms, &cube)
@@ -499,7 +613,7 @@ fn run(plan: &Plan, ctx: &mut Ctx) -> R {
             nonconst = true;
         }
         ctx.ev(600 + kind as u64, &[hidx as u64, pkey(p).0 as u64, pkey(p).1 as u64, tt::lo(want[0]), tt::hi(want[1]), tt::lo(want[2]), tt::hi(want[3])]);
-        ctx.note(|| format!("[{i}] c{caller} h{hidx} = {}(x{} {} h{} h{} h{}) -> {}  samples={}", KNAMES[kind as usize], r.label, r.flag, r.x[0], r.x[1], r.x[2], show(p), mshow(&want)));
+        ctx.note(|| format!("[{i}] c{caller} h{hidx} = {}(x{} {} h{} h{} h{}) -> {} ({} elements)  samples={}", KNAMES[kind as usize], r.label, r.flag, r.x[0], r.x[1], r.x[2], show(p), p.node_iter_len(), mshow(&want)));
 
         let mut memo = BTreeMap::new();
         let got = walk(p, &cube, &mut memo);
@@ -521,6 +635,17 @@ fn run(plan: &Plan, ctx: &mut Ctx) -> R {
                 chain_seen.insert(key, p);
             }
         }
+        if compress && kind == K_MUX {
+            // the same multiplexer assembled in the other order is the same node
+            let key = (r.chain, r.label, r.x);
+            if let Some(prev) = mux_seen.get(&key) {
+                ctx.check("C04", "sdd-equal-functions-same-pointer", *prev == p, || {
+                    format!("a multiplexer over {} selectors was assembled twice (in different orders) and is stored as {} and as {}", r.chain.0, show(*prev), show(p))
+                })?;
+            } else {
+                mux_seen.insert(key, p);
+            }
+        }
         if compress && ctx.wants("C04") {
             ctx.cur_prop = "C04";
             let mut nodes = BTreeMap::new();
@@ -534,7 +659,7 @@ fn run(plan: &Plan, ctx: &mut Ctx) -> R {
         if let Some(t) = twin {
             ctx.cur_prop = "C16";
             let was = rsdd::verif::set_faults_enabled(false);
-            let q = if kind == K_IFFCHAIN { apply_chain(t, &chain_route(&cube.used, &r)) } else { apply(t, &r, &twin_pool) };
+            let q = apply_any(t, &r, &twin_pool, &cube.used);
             rsdd::verif::set_faults_enabled(was);
             twin_pool.push(q);
             // structure is only canonical (hence comparable) with compression; otherwise compare the function on the samples
@@ -616,7 +741,7 @@ impl World for SddMidWorld {
         }
         let ncallers = 1 + c.below(4);
         let mut w = [0u32; NKINDS];
-        let base = [10, 1, 5, 10, 9, 6, 6, 7, 6, 5, 4, 3, 4, 3, 2];
+        let base = [10, 1, 5, 10, 9, 6, 6, 7, 6, 5, 4, 3, 4, 3, 2, 2];
         for k in 0..NKINDS {
             w[k] = if c.below(6) == 0 { 0 } else { base[k] * (1 + c.below(3) as u32) };
         }
@@ -649,6 +774,58 @@ impl World for SddMidWorld {
             }
             return Plan { world: "sddmid".into(), target: target.into(), seed: run_seed, cfg, ops, faults: Faults::Random { seed: mix(run_seed, 88), rates: [0; NUM_SITES] } };
         }
+        // one run in 150: "wide multiplexers": the same vtree; two multiplexers over disjoint selector groups of the
+        // left half (32 and 64 selector minterms) whose data inputs are a few functions of three right-half
+        // variables and their complements; each assembled in two orders; then combined: raw element lists of 2048
+        // entries in which most subs coincide with, or complement, other subs (compression of wide nodes)
+        let wide_mux = !huge && c.below(150) == 0;
+        if wide_mux {
+            cfg.insert("wide_mux".into(), 1);
+            cfg.insert("wide_chain".into(), 1);
+            cfg.insert("arena".into(), 2);
+            cfg.insert("nvars".into(), 24);
+            cfg.insert("vt_shape".into(), 3);
+            cfg.insert("linear_order".into(), 1);
+            cfg.insert("compress".into(), 1);
+            let mut ops = Vec::new();
+            let (s1, s2) = (o.below(1 << 20) as i64, o.below(1 << 20) as i64);
+            // data words: (number of data variables - 1) + 3 * (index of the pool size) + 36 * offset; three data variables,
+            // pools of 6 ... 256 tables (half of them complements of the other half)
+            let dw = |o: &mut Rng| (2 + 3 * *o.pick(&[3u64, 6, 8, 9, 10, 11, 11, 11]) + 36 * o.below(9)) as i64;
+            let (d1, mut d2) = (dw(&mut o), dw(&mut o));
+            // (two runs in three: both multiplexers read the same three data variables, so that the subs of a combination
+            // are drawn from 256 functions and coincide or complement each other all the time)
+            if c.below(3) != 0 {
+                d2 = d2 % 36 + 36 * (d1 / 36);
+            }
+            let (k1, k2) = if c.below(4) == 0 { (4i64, 5i64) } else { (5, 6) };
+            // selector word: k + 8 * offset
+            ops.push(Op { c: 0, k: K_MUX, a: [k1, s1, d1, 0] });
+            ops.push(Op { c: 0, k: K_MUX, a: [k2 + 8 * k1, s2, d2, 0] });
+            ops.push(Op { c: 0, k: K_MUX, a: [k1, s1, d1, 1] });
+            ops.push(Op { c: 0, k: K_MUX, a: [k2 + 8 * k1, s2, d2, 1] });
+            // handles so far: 0 = A, 1 = B, 2 = A again, 3 = B again; `at(i, n)` addresses handle i when n handles exist
+            let at = |i: u64, n: u64| ((n - 1 - i) << 1) as i64;
+            let mut n = 4u64;
+            let z = o.below(2);
+            ops.push(Op { c: 0, k: K_NEG, a: [at(z, n), 0, 0, 0] });
+            n += 1;
+            // the two multiplexers combined (raw lists of 2^k1 * 2^k2 elements), in both argument orders and with a
+            // negated operand; then a few free combinations of everything built so far
+            for (kind, x, y) in [(*o.pick(&[K_AND, K_OR, K_XOR]), 0u64, 1u64), (*o.pick(&[K_AND, K_OR, K_IFF]), 1, 0), (*o.pick(&[K_AND, K_OR]), 4, 1 - z)] {
+                ops.push(Op { c: 0, k: kind, a: [at(x, n), at(y, n), 0, 0] });
+                n += 1;
+            }
+            for _ in 0..(2 + o.below(4)) {
+                let kind = *o.pick(&[K_OR, K_AND, K_AND, K_XOR, K_IFF, K_ITE, K_EQ, K_NEG, K_REISSUE]);
+                let a = if kind == K_REISSUE { [o.below(1 << 16) as i64, 0, 0, 0] } else { [at(o.below(n), n), at(o.below(n), n), at(o.below(n), n), 0] };
+                ops.push(Op { c: 0, k: kind, a });
+                if !matches!(kind, K_EQ | K_REISSUE) {
+                    n += 1;
+                }
+            }
+            return Plan { world: "sddmid".into(), target: target.into(), seed: run_seed, cfg, ops, faults: Faults::Random { seed: mix(run_seed, 88), rates: [0; NUM_SITES] } };
+        }
         let len = 12 + o.below(if thorough { 120 } else { 60 });
         let mut ops = Vec::new();
         for _ in 0..(4 + c.below(6)) {
@@ -664,6 +841,7 @@ impl World for SddMidWorld {
                 K_COMPOSE => [gen_operand(&mut o), gen_operand(&mut o), o.below(8) as i64, 0],
                 K_REISSUE => [o.below(1 << 16) as i64, 0, 0, 0],
                 K_IFFCHAIN => [o.below(6) as i64, o.below(64) as i64, 0, o.below(2) as i64],
+                K_MUX => [o.below(512) as i64, o.below(8) as i64, o.below(36 * 12) as i64, o.below(2) as i64],
                 _ => [gen_operand(&mut o), gen_operand(&mut o), gen_operand(&mut o), 0],
             };
             ops.push(Op { c: caller, k, a });
